@@ -25,6 +25,8 @@ type c14case struct {
 	after  [][]byte // ending "over": what the client goes on sending behind the oversized message
 	expect []string // rows the client encoded (nil: not a well-formed stream)
 	noise  bool     // Flush/Sync interleaved between the CopyData messages
+	lead   []byte   // the messages that make the handler run (nil: Query "copy"); may carry surplus bytes behind their last field
+	tail   []byte   // what the client pipelines behind the end of the copy (nil: Sync, Parse, Sync)
 }
 
 // the value as pgx's binary decoders return it, in the case language
@@ -106,7 +108,11 @@ func runC14case(cs *c14case) (rows []string, final string, panicked bool, out []
 		srv.ServeConn(context.Background(), conn)
 	}()
 	raw := append([]byte{}, stdStartup...)
-	raw = append(raw, mQuery([]byte("copy"))...)
+	if cs.lead != nil {
+		raw = append(raw, cs.lead...)
+	} else {
+		raw = append(raw, mQuery([]byte("copy"))...)
+	}
 	for i, ch := range cs.chunks {
 		raw = append(raw, mCopyData(ch)...)
 		if cs.noise && i%2 == 0 {
@@ -127,7 +133,14 @@ func runC14case(cs *c14case) (rows []string, final string, panicked bool, out []
 	default:
 		raw = append(raw, mCopyFail([]byte("client aborts"))...)
 	}
-	raw = append(raw, mSync()...)
+	if cs.tail != nil {
+		raw = append(raw, cs.tail...)
+	} else {
+		// the connection goes on behind the copy: nothing of what follows belongs to the copy stream
+		raw = append(raw, mSync()...)
+		raw = append(raw, mParse(nil, []byte("after"), 0)...)
+		raw = append(raw, mSync()...)
+	}
 	conn.push(raw)
 	conn.setEOF()
 	if !conn.waitFinished(idleTimeout) {
@@ -172,7 +185,7 @@ func emitC14(c *runCfg, cs *c14case) {
 	if must == "" {
 		must = "any"
 	}
-	c.out.line(sx("c14", cs.id, cs.class, sx("limit", cs.limit), sx(oids...), sx(chunks...), sx("ending", cs.ending), sx("noise", cs.noise), sx("expect", exp), sx("must", must),
+	c.out.line(sx("c14", cs.id, cs.class, sx("limit", cs.limit), sx(oids...), sx(chunks...), sx("ending", cs.ending), sx("noise", cs.noise), sx("expect", exp), sx("must", must), sx("lead", hx(cs.lead)), sx("tail", hx(cs.tail)),
 		sx("obs", sx(append([]any{"rows"}, toAny(rows)...)...), sx("final", final), sx("panic", p), sx("hang", hang), sx("out", out))))
 	c.stat("class_" + cs.class)
 }
@@ -311,6 +324,12 @@ func runC14(c *runCfg) error {
 			for _, ch := range n.field("chunks").list[1:] {
 				cs.chunks = append(cs.chunks, unhx(ch.atom))
 			}
+			if f := n.field("lead"); f != nil && len(unhx(f.list[1].atom)) > 0 {
+				cs.lead = unhx(f.list[1].atom)
+			}
+			if f := n.field("tail"); f != nil && len(unhx(f.list[1].atom)) > 0 {
+				cs.tail = unhx(f.list[1].atom)
+			}
 			emitC14(c, cs)
 		}
 		return sc.Err()
@@ -374,6 +393,24 @@ func runC14(c *runCfg) error {
 			id++
 		}
 		emitGroup("valid", stream, expect, "done")
+		if gi%4 == 0 {
+			// the message that starts the copy carries surplus bytes behind its last field (a tuple, the stream
+			// signature, noise): they belong to that message, never to the copy stream; simple and extended protocol
+			surplus := [][]byte{{0, 1, 0, 0, 0, 4, 0, 0, 0, 7}, []byte("PGCOPY\n\377\r\n\000"), {0xff, 0xff}, stream}
+			for k, sp := range surplus {
+				leads := [][]byte{
+					msg('Q', cat(cs([]byte("copy")), sp)),
+					cat(mParse(nil, []byte("copy"), 0), mBind(nil, nil, nil, nil, nil), msg('E', cat(cs(nil), be32b(0), sp))),
+				}
+				for li, lead := range leads {
+					if len(sp) > 50 { // the leading message itself stays within the limit
+						continue
+					}
+					chunks := fitChunks([][]byte{stream}, L)
+					emitC14(c, &c14case{id: fmt.Sprintf("%d.s%d", id-1, k*2+li), class: "surplus", limit: L, oids: oids, chunks: chunks, ending: "done", expect: expect, lead: lead})
+				}
+			}
+		}
 		// corruptions of counts and lengths, truncations, aborted streams
 		if len(stream) > 0 {
 			bad := append([]byte{}, stream...)
